@@ -30,12 +30,12 @@ var c16Engines = []string{"memkv", "tikv", "badger", "memkv"}
 func init() {
 	Registry["C16"] = &Prop{
 		Plan: func(tier string) Plan {
-			return Plan{Level: "exploration", NCases: pick(tier, 300, 6000), Batch: 6, CaseTimeout: 120,
+			return Plan{Level: "exploration", NCases: pick(tier, 300, 60000), Batch: 6, CaseTimeout: 120,
 				Rule: "one case = a PRNG sequential history of 40-150 etcd requests sent to the real etcd.RPCServer handlers (every 5th sequential case over a real loopback gRPC connection, its watch opened with the real etcd clientv3): the four transaction shapes Kubernetes issues (create-if-absent, guarded update, guarded delete, unguarded delete) with correct / stale / zero expected revisions over existing, missing and deleted keys; Range point reads and range reads with all bounds, limits and old revisions, count-only; one prefix watch with prev_kv; every 6th case instead 4 concurrent etcd clients on one key (memkv/Badger) whose failed compares must never return the compared revision; the sequential cases are interleaved with structurally valid but unsupported transactions (two compares, VALUE/CREATE/VERSION targets, !=,<,> results, two puts, put+delete, nested txn, prev_kv/ignore_* flags, range deletes, compare/put/delete naming different keys, range compares). " +
 					"oracle = etcd-semantics reference (MVCC map; adopts the response revision on success): success flag, failure-branch kv, mod revisions, order, count, more, watch PUT/DELETE with prev_kv; unsupported => error AND unchanged state (full range equal, no event). " +
 					"non-trivial = history with >=1 failed guarded write returning the current kv, >=1 zero-revision guarded request, >=1 limited range cut short and >=3 unsupported shapes; distinct by outcome vector",
 				Assumptions: []string{"EnableEtcdCompatibility is on (count is a stub otherwise)", "only the fields the property names are compared (not the op type of success-branch responses)"},
-				MinConcl:    pick(tier, 220, 5000)}
+				MinConcl:    pick(tier, 220, 50000)}
 		},
 		Name: func(c *harness.Case) string { return "etcd-" + c16Engines[c.Index%len(c16Engines)] },
 		Run:  runC16,
@@ -543,8 +543,12 @@ func runC16(c *harness.Case) {
 		}
 	}
 	// the handler registers with the backend right after sending "created": wait for the subscription (hook counter)
-	for i := 0; i < 50000 && n.PointCount("afterSubscribe") == 0; i++ {
+	for i := 0; i < 600000 && n.PointCount("afterSubscribe") == 0; i++ {
 		time.Sleep(100 * time.Microsecond)
+	}
+	if n.PointCount("afterSubscribe") == 0 {
+		c.Inconclusive("the watch did not reach the backend within the watchdog")
+		return
 	}
 	time.Sleep(time.Millisecond)
 	nReq := 40 + r.Intn(110)
